@@ -2382,6 +2382,16 @@ func (h *hmapType) cachedHashStored() string {
 						if k := hashExprKind(cl, kv.Value); k == "hash()" || strings.HasPrefix(k, "fn:") || strings.HasPrefix(k, "inline:") {
 							okHash = true
 						}
+						// the field keeps the whole hash: look-ups take the index from hash(key) at its full
+						// width, so a narrower copy gives other residues for the hashes it cuts
+						if hm := h.hashMethodResult(); hm != nil {
+							if ft := fi.Pkg.TypesInfo.TypeOf(kv.Value); ft != nil {
+								sz := types.SizesFor("gc", "amd64")
+								if fb, ok := ft.Underlying().(*types.Basic); ok && fb.Info()&types.IsInteger != 0 && sz.Sizeof(ft) < sz.Sizeof(hm) && sz.Sizeof(ft) < h.hashEffectiveWidth(sz) {
+									return fmt.Sprintf("%s stores the hash in a field of type %s, narrower than what hash() returns (%s): rehash() re-buckets by the narrowed copy while look-ups use the full hash, so after a growth the entries whose hash does not fit are no longer found", fi.Obj.Name(), ft.String(), hm.String())
+								}
+							}
+						}
 					}
 				}
 			}
@@ -2391,6 +2401,56 @@ func (h *hmapType) cachedHashStored() string {
 		}
 	}
 	return ""
+}
+
+// hashMethodResult: the result type of the type's own hash(key) helper, nil when there is none.
+func (h *hmapType) hashMethodResult() types.Type {
+	for _, fi := range h.p.MethodsOf(h.t) {
+		if fi.Obj.Name() == "hash" {
+			if sig, ok := fi.Obj.Type().(*types.Signature); ok && sig.Results().Len() == 1 {
+				return sig.Results().At(0).Type()
+			}
+		}
+	}
+	return nil
+}
+
+// hashEffectiveWidth: how many bytes of hash()'s result can be non-zero. A result that is a plain
+// widening of an unsigned narrower value (uint(crc32u)) only ever has that many significant bytes;
+// a widened signed value is sign-extended and uses the full width.
+func (h *hmapType) hashEffectiveWidth(sz types.Sizes) int64 {
+	for _, fi := range h.p.MethodsOf(h.t) {
+		if fi.Obj.Name() != "hash" || fi.Decl.Body == nil {
+			continue
+		}
+		full := sz.Sizeof(fi.Obj.Type().(*types.Signature).Results().At(0).Type())
+		if len(fi.Decl.Body.List) != 1 {
+			return full
+		}
+		rs, ok := fi.Decl.Body.List[0].(*ast.ReturnStmt)
+		if !ok || len(rs.Results) != 1 {
+			return full
+		}
+		info := fi.Pkg.TypesInfo
+		e := ast.Unparen(rs.Results[0])
+		for {
+			call, ok := e.(*ast.CallExpr)
+			if !ok || len(call.Args) != 1 {
+				break
+			}
+			if tv, ok := info.Types[call.Fun]; !ok || !tv.IsType() {
+				break
+			}
+			e = ast.Unparen(call.Args[0])
+		}
+		if t := info.TypeOf(e); t != nil {
+			if b, ok := t.Underlying().(*types.Basic); ok && b.Info()&types.IsUnsigned != 0 {
+				return sz.Sizeof(t)
+			}
+		}
+		return full
+	}
+	return 8
 }
 
 // walkCoverage checks every loop over a table-like slice driven by its length: the indices used
